@@ -19,7 +19,9 @@ From Coq Require Import ZArith.
 From Lib Require Import ZOps Machine.
 From Gen Require Import GenFields {mod}.
 Definition step_fn := {mod}.Step.
-Extraction "model.ml" step_fn Z.add Z.mul Z.div Z.modulo Z.opp.
+Definition reset_fn := {mod}.Reset.
+Definition irq_fn := {mod}.TriggerIRQ.
+Extraction "model.ml" step_fn reset_fn irq_fn Z.add Z.mul Z.div Z.modulo Z.opp.
 """
 
 TRUST = [
@@ -318,7 +320,9 @@ From Lib Require Import ZOps Machine.
 From Gen Require Import GenFields.
 From Gen Require GenCpu65 GenCpuAlt.
 From Model Require Import Disasm.
-From Props Require Import SafeLib RunProps.
+From Coq Require Import Bool.
+From Props Require Import SafeLib RunProps StopProps.
+Import ListNotations.
 From Run Require C12_GenCpu65 C12_GenCpuAlt.
 Local Open Scope Z_scope.
 Definition flds : fields := mkfields f_RK f_PC f_M f_X f_RA f_RAl f_RX f_RXl f_RY f_RYl f_N f_V f_D f_I f_Z f_C.
@@ -358,6 +362,72 @@ Qed.
 Print Assumptions C12_run_until_65.
 Print Assumptions C12_run_until_alt.
 Print Assumptions C12_run_steps_65.
+
+(* ---- C12 (ii) over HISTORIES of calls (Step / Reset / TriggerIRQ / triggerNMI), static Props/StopProps.v instantiated
+   with this run's one-call theorems: every history runs without a panic, a Step reports the stop condition exactly
+   when the Stopped field is set after it, the condition lasts from the Step that raised it until the next Reset, Reset
+   clears it, and TriggerIRQ / triggerNMI never raise it *)
+Definition ostep (f : st -> res (Z * bool)) (s : st) : option (bool * st) :=
+  match f s with Ok (_, b) s' => Some (b, s') | Panic => None end.
+Definition ocall (f : st -> res unit) (s : st) : option st :=
+  match f s with Ok _ s' => Some s' | Panic => None end.
+Definition stoppedb (s : st) : bool := z2b (get f_Stopped s).
+
+Section Contracts.
+  Variables (Step : st -> res (Z * bool)) (Reset TriggerIRQ triggerNMI : st -> res unit).
+  Hypothesis Hstep : forall s, Inv (Bty fwidth) s ->
+    safe (fun r s' => (exists c, r = (c, z2b (get f_Stopped s')) /\\ 1 <= c <= 255 /\\
+                       get f_AllCycles s' = add64 (get f_AllCycles s) c /\\
+                       (get f_Stopped s' = get f_Stopped s \\/ get f_Stopped s' = 1)) /\\ Inv (Bty fwidth) s') (Step s).
+  Hypothesis Hreset : forall s, Inv (Bty fwidth) s -> safe (fun _ s' => get f_Stopped s' = 0 /\\ Inv (Bty fwidth) s') (Reset s).
+  Hypothesis Hirq : forall s, Inv (Bty fwidth) s -> safe (fun _ s' => get f_Stopped s' = get f_Stopped s /\\ Inv (Bty fwidth) s') (TriggerIRQ s).
+  Hypothesis Hnmi : forall s, Inv (Bty fwidth) s -> safe (fun _ s' => get f_Stopped s' = get f_Stopped s /\\ Inv (Bty fwidth) s') (triggerNMI s).
+
+  Lemma c_step : forall s, Inv (Bty fwidth) s ->
+    exists b s', ostep Step s = Some (b, s') /\\ Inv (Bty fwidth) s' /\\ b = stoppedb s' /\\ (stoppedb s' = stoppedb s \\/ stoppedb s' = true).
+  Proof.
+    intros s H. pose proof (Hstep s H) as HS. unfold ostep. destruct (Step s) as [[n b] s'|]; simpl in HS; [|contradiction].
+    destruct HS as [(c & Hr & _ & _ & Hs) Hi]. inversion Hr; subst. exists (z2b (get f_Stopped s')), s'.
+    split; [reflexivity|]. split; [exact Hi|]. split; [reflexivity|]. unfold stoppedb.
+    destruct Hs as [Hs|Hs]; rewrite Hs; [left | right]; reflexivity.
+  Qed.
+  Lemma c_reset : forall s, Inv (Bty fwidth) s -> exists s', ocall Reset s = Some s' /\\ Inv (Bty fwidth) s' /\\ stoppedb s' = false.
+  Proof.
+    intros s H. pose proof (Hreset s H) as HS. unfold ocall. destruct (Reset s) as [u s'|]; simpl in HS; [|contradiction].
+    destruct HS as [Hs Hi]. exists s'. split; [reflexivity|]. split; [exact Hi|]. unfold stoppedb. rewrite Hs. reflexivity.
+  Qed.
+  Lemma c_keep (f : st -> res unit) : (forall s, Inv (Bty fwidth) s -> safe (fun _ s' => get f_Stopped s' = get f_Stopped s /\\ Inv (Bty fwidth) s') (f s)) ->
+    forall s, Inv (Bty fwidth) s -> exists s', ocall f s = Some s' /\\ Inv (Bty fwidth) s' /\\ stoppedb s' = stoppedb s.
+  Proof.
+    intros Hf s H. pose proof (Hf s H) as HS. unfold ocall. destruct (f s) as [u s'|]; simpl in HS; [|contradiction].
+    destruct HS as [Hs Hi]. exists s'. split; [reflexivity|]. split; [exact Hi|]. unfold stoppedb. rewrite Hs. reflexivity.
+  Qed.
+
+  Theorem stop_history : forall h s, Inv (Bty fwidth) s ->
+    exists os sf, hrun st (ostep Step) (ocall Reset) (ocall TriggerIRQ) (ocall triggerNMI) h s = Some (os, sf) /\\ Inv (Bty fwidth) sf /\\
+                  stoppedb sf = latch (stoppedb s) os /\\ ok_from (stoppedb s) os.
+  Proof. exact (stop_latched st _ _ _ _ stoppedb (Inv (Bty fwidth)) c_step c_reset (c_keep _ Hirq) (c_keep _ Hnmi)). Qed.
+
+  Theorem stop_until_reset_inst : forall h1 h2 s o1 s1 b s2, Inv (Bty fwidth) s ->
+    hrun st (ostep Step) (ocall Reset) (ocall TriggerIRQ) (ocall triggerNMI) h1 s = Some (o1, s1) -> ostep Step s1 = Some (b, s2) -> b = true -> no_reset h2 ->
+    exists o2 s3 b' s4, hrun st (ostep Step) (ocall Reset) (ocall TriggerIRQ) (ocall triggerNMI) h2 s2 = Some (o2, s3) /\\ ostep Step s3 = Some (b', s4) /\\ b' = true /\\
+                        Forall (fun o => match o with OStep b => b = true | _ => True end) o2.
+  Proof. exact (stop_until_reset st _ _ _ _ stoppedb (Inv (Bty fwidth)) c_step c_reset (c_keep _ Hirq) (c_keep _ Hnmi)). Qed.
+End Contracts.
+
+Theorem C12_stop_history_65 : forall h s, Inv (Bty fwidth) s ->
+  exists os sf, hrun st (ostep GenCpu65.Step) (ocall GenCpu65.Reset) (ocall GenCpu65.TriggerIRQ) (ocall GenCpu65.triggerNMI) h s = Some (os, sf) /\\ Inv (Bty fwidth) sf /\\
+                stoppedb sf = latch (stoppedb s) os /\\ ok_from (stoppedb s) os.
+Proof. exact (stop_history _ _ _ _ C12_GenCpu65.C12_step_GenCpu65 C12_GenCpu65.C12_reset_GenCpu65 C12_GenCpu65.C12_irq_GenCpu65 C12_GenCpu65.C12_nmi_GenCpu65). Qed.
+Theorem C12_stop_history_alt : forall h s, Inv (Bty fwidth) s ->
+  exists os sf, hrun st (ostep GenCpuAlt.Step) (ocall GenCpuAlt.Reset) (ocall GenCpuAlt.TriggerIRQ) (ocall GenCpuAlt.triggerNMI) h s = Some (os, sf) /\\ Inv (Bty fwidth) sf /\\
+                stoppedb sf = latch (stoppedb s) os /\\ ok_from (stoppedb s) os.
+Proof. exact (stop_history _ _ _ _ C12_GenCpuAlt.C12_step_GenCpuAlt C12_GenCpuAlt.C12_reset_GenCpuAlt C12_GenCpuAlt.C12_irq_GenCpuAlt C12_GenCpuAlt.C12_nmi_GenCpuAlt). Qed.
+Definition C12_stop_until_reset_65 := stop_until_reset_inst _ _ _ _ C12_GenCpu65.C12_step_GenCpu65 C12_GenCpu65.C12_reset_GenCpu65 C12_GenCpu65.C12_irq_GenCpu65 C12_GenCpu65.C12_nmi_GenCpu65.
+Definition C12_stop_until_reset_alt := stop_until_reset_inst _ _ _ _ C12_GenCpuAlt.C12_step_GenCpuAlt C12_GenCpuAlt.C12_reset_GenCpuAlt C12_GenCpuAlt.C12_irq_GenCpuAlt C12_GenCpuAlt.C12_nmi_GenCpuAlt.
+Print Assumptions C12_stop_history_65.
+Print Assumptions C12_stop_history_alt.
+Print Assumptions C12_stop_until_reset_65.
 """
 
 TIE_V = """From Coq Require Import ZArith List Bool.
@@ -409,7 +479,10 @@ def run_c12(ck):
             vlib.write_if_changed(pv, RUN_V)
             rc, out, dt, cached = vlib.coqc(pv, timeout=900)
             ck.oblige("Theorems C12_run_until_65 / C12_run_until_alt / C12_run_steps_65 : RunUntil returns for every start state, target, budget < 2^64-255 and any fuel > budget; "
-                      "truthful answer; nothing executed at the target; every executed Step started under the budget (static Props/RunProps.v instantiated with this run's Step contract)", rc == 0, out[-800:])
+                      "truthful answer; nothing executed at the target; every executed Step started under the budget (static Props/RunProps.v instantiated with this run's Step contract); "
+                      "C12_stop_history_65 / _alt, C12_stop_until_reset_65 / _alt : over EVERY history of Step / Reset / TriggerIRQ / triggerNMI calls from a state with fields in their Go types "
+                      "(static Props/StopProps.v instantiated with C12_step, C12_reset, C12_irq, C12_nmi of this run): no panic, each Step reports the stop condition iff the Stopped field is set after it, "
+                      "the condition lasts from the Step that raised it until the next Reset, Reset clears it, TriggerIRQ / triggerNMI never change it", rc == 0, out[-800:])
             if rc == 0:
                 ck.assumptions += vlib.parse_assumptions(out)
     # RunUntil on the real System: falsifier + tie of the loop model on the recorded trajectories
@@ -453,7 +526,8 @@ def run_c12(ck):
     ck.sample({"theorem": "C12_step_GenCpu65", "statement": "forall s, Inv (Bty fwidth) s -> safe (fun r s' => (exists c, r = (c, z2b (get f_Stopped s')) /\\ 1 <= c <= 255 /\\ get f_AllCycles s' = add64 (get f_AllCycles s) c /\\ (get f_Stopped s' = get f_Stopped s \\/ get f_Stopped s' = 1)) /\\ Inv (Bty fwidth) s') (Step s)"})
     ck.cov.update({
         "distinct_nontrivial": stats.get("cases", 0) + ck.cov.get("rununtil_cases", 0),
-        "rule": "theorems: all states / targets / budgets (unbounded). Tie/falsifier: CPU cases as for C02/C08 (cycles and callback events are part of the compared trace; FAIL C12 if a Step reports < 1 cycle) "
+        "rule": "theorems: all states / targets / budgets / call histories (unbounded). Tie/falsifier: CPU cases as for C02/C08 (cycles and callback events are part of the compared trace; FAIL C12 if a Step reports < 1 cycle, "
+                "if the stop flag falls in a Step or rises in a Step that fetched no $DB, if Reset leaves the flag set or TriggerIRQ changes it; a third of the multi-step cases are histories with Reset / TriggerIRQ calls, half of them starting with STP) "
                 "plus RunUntil cases: random programs on the real System, targets on/off the trajectory, budgets 0, 1, exact, +-1, random, with counting Logger and OnPC callbacks on every fetched address and on the target",
         "checker_cmd": "coqc build/work/Run/C08_*.v C12_*.v C12_run.v Cases_C12_*.v",
         "callbacks": "OnPC / OnWDM: compared event by event in the lockstep tie (P:/D: trace events) and counted by the RunUntil falsifier; no separate theorem",
